@@ -12,8 +12,8 @@ import (
 )
 
 func init() {
-	register(&Rule{ID: "R52", Name: "CLAUSE-ALL", Floor: 2,
-		Text: "the loops over the sub-clauses in AndClause.filter and OrClause.filter evaluate every sub-clause: the only exits from the loop are exhaustion of the range or an exit taken because the accumulated frame carries an error; an early exit on any other condition (e.g. `all rows already selected`) skips clauses whose evaluation would have reported an error",
+	register(&Rule{ID: "R52", Name: "CLAUSE-ALL", Floor: 3,
+		Text: "the loops over the sub-clauses in AndClause.filter and OrClause.filter, and the loop over the leaf filters of one OR group in QFrame.filter, evaluate every element: the only exits from the loop are exhaustion of the range, an exit taken because the accumulated frame carries an error, or (QFrame.filter) a return of an errored frame; an early exit on any other condition (e.g. `all rows already selected`) skips clauses whose evaluation would have reported an error",
 		Run:  runR52})
 	register(&Rule{ID: "R53", Name: "CALLBACK-ARG-FRESH", Floor: 10,
 		Text: "a pointer handed to a per-row user callback inside a loop is never the address of a variable that lives across iterations: built-ins such as function.StrS and function.ConcatS return their argument, so a reused cell makes every row alias the last one",
@@ -70,13 +70,226 @@ func runR52(c *Ctx) {
 			}
 			if bad != "" {
 				c.bad(key, p.pos(fn.Pos()), fmt.Sprintf("the loop is left early at %s on a condition other than an error: the remaining sub-clauses are never evaluated, so their errors (unknown column, bad comparator) are lost", bad))
+			} else if skip := r52SkippedElement(p, fn, li); skip != "" {
+				c.bad(key, p.pos(fn.Pos()), "an iteration can reach the next one without evaluating its sub-clause ("+skip+"): a clause that is skipped - because it `looks like` one seen before, or for any other reason - contributes neither its rows nor its errors")
 			} else {
-				c.ok(key, p.pos(fn.Pos()), "every sub-clause is evaluated (only exit: range exhausted / error)")
+				c.ok(key, p.pos(fn.Pos()), "every sub-clause is evaluated (only exit: range exhausted / error; every iteration hands its clause to filter() or to the batch of leaf filters)")
 			}
 		}
 		if !found {
 			c.undecided(fname(fn)+"|loop over sub-clauses", p.pos(fn.Pos()), "no range over subClauses found")
 		}
+	}
+	// QFrame.filter: the leaf filters of one OR group share a boolean index; every one of them is evaluated
+	r52FilterLoop(c)
+}
+
+// r52SkippedElement: "" when every path through one iteration of the loop li (a range over sub-clauses)
+// consumes the range element - invokes its filter method, or appends it (converted) to a []filter.Filter;
+// otherwise a description of the escaping path.
+func r52SkippedElement(p *Prog, fn *ssa.Function, li loopInfo) string {
+	// the element: a load of &base[key]
+	derived := map[ssa.Value]bool{}
+	var work []ssa.Value
+	eachInstr(fn, func(in ssa.Instruction) {
+		ia, ok := in.(*ssa.IndexAddr)
+		if !ok || accessPath(ia.X) != accessPath(li.base) || !inLoop(li, ia.Block()) {
+			return
+		}
+		for _, r := range *ia.Referrers() {
+			if l, ok := r.(*ssa.UnOp); ok && l.Op == token.MUL {
+				work = append(work, l)
+			}
+		}
+	})
+	if len(work) == 0 {
+		return "the range element is never read"
+	}
+	for len(work) > 0 {
+		v := work[len(work)-1]
+		work = work[:len(work)-1]
+		if derived[v] {
+			continue
+		}
+		derived[v] = true
+		refs := v.Referrers()
+		if refs == nil {
+			continue
+		}
+		for _, r := range *refs {
+			switch t := r.(type) {
+			case *ssa.TypeAssert:
+				work = append(work, t)
+			case *ssa.Extract:
+				if t.Index == 0 {
+					work = append(work, t)
+				}
+			case *ssa.ChangeType:
+				work = append(work, t)
+			case *ssa.Convert:
+				work = append(work, t)
+			case *ssa.MakeInterface:
+				work = append(work, t)
+			case *ssa.ChangeInterface:
+				work = append(work, t)
+			case *ssa.Phi:
+				work = append(work, t)
+			case *ssa.Slice:
+				work = append(work, t)
+			case *ssa.Store:
+				if t.Val == v {
+					// stored into a fresh array / local cell: the container carries the element
+					root := t.Addr
+					if ia, ok := root.(*ssa.IndexAddr); ok {
+						root = ia.X
+					}
+					if a, ok := root.(*ssa.Alloc); ok {
+						work = append(work, a)
+						for _, ar := range *a.Referrers() {
+							if l, ok := ar.(*ssa.UnOp); ok && l.Op == token.MUL {
+								work = append(work, l)
+							}
+						}
+					}
+				}
+			}
+		}
+	}
+	consumer := map[*ssa.BasicBlock]bool{}
+	eachInstr(fn, func(in ssa.Instruction) {
+		call, ok := in.(ssa.CallInstruction)
+		if !ok {
+			return
+		}
+		cc := call.Common()
+		if cc.IsInvoke() && derived[cc.Value] && cc.Method.Name() == "filter" {
+			consumer[in.Block()] = true
+		}
+		if builtinName(call) == "append" {
+			if sl, ok := cc.Args[0].Type().Underlying().(*types.Slice); ok && isNamed(sl.Elem(), rel("filter"), "Filter") {
+				for _, a := range cc.Args[1:] {
+					if derived[a] {
+						consumer[in.Block()] = true
+					}
+				}
+			}
+		}
+		if f := staticCallee(call); f != nil && f.Signature.Recv() != nil && f.Name() == "filter" && len(cc.Args) > 0 && derived[cc.Args[0]] {
+			consumer[in.Block()] = true
+		}
+	})
+	if len(consumer) == 0 {
+		return "nothing in the loop hands the clause to filter() or to the batch of leaf filters"
+	}
+	// a path from the loop body back to the header that avoids every consumer block
+	seen := map[*ssa.BasicBlock]bool{}
+	var dfs func(b *ssa.BasicBlock) string
+	dfs = func(b *ssa.BasicBlock) string {
+		if seen[b] || consumer[b] || !inLoop(li, b) {
+			return ""
+		}
+		seen[b] = true
+		for _, s := range b.Succs {
+			if s == li.header {
+				pos := "-"
+				if len(b.Instrs) > 0 {
+					pos = p.instrPos(b.Instrs[len(b.Instrs)-1])
+				}
+				return "back to the loop header from " + pos
+			}
+			if r := dfs(s); r != "" {
+				return r
+			}
+		}
+		return ""
+	}
+	for _, s := range li.header.Succs {
+		if inLoop(li, s) {
+			if r := dfs(s); r != "" {
+				return r
+			}
+		}
+	}
+	return ""
+}
+
+// exitReportsError: the block ends in a return that hands back an errored frame (the result of the
+// error-setting helper) or a non-nil error.
+func exitReportsError(p *Prog, b *ssa.BasicBlock) bool {
+	if len(b.Instrs) == 0 {
+		return false
+	}
+	ret, ok := b.Instrs[len(b.Instrs)-1].(*ssa.Return)
+	if !ok {
+		return false
+	}
+	for _, r := range ret.Results {
+		if call, ok := r.(*ssa.Call); ok {
+			if o := calleeObj(call); o != nil && p.isErrSetter(o) {
+				return true
+			}
+		}
+		if isErrorType(r.Type()) {
+			if cst, ok := r.(*ssa.Const); !ok || !cst.IsNil() {
+				return true
+			}
+		}
+	}
+	return false
+}
+
+func r52FilterLoop(c *Ctx) {
+	p := c.P
+	fn := p.anchorFrameFilter()
+	if fn == nil {
+		c.undecided("qframe.QFrame.filter", "-", "not found")
+		return
+	}
+	found := false
+	for _, li := range loopsOf(fn) {
+		if li.base == nil {
+			continue
+		}
+		prm, ok := li.base.(*ssa.Parameter)
+		if !ok {
+			continue
+		}
+		sl, ok := prm.Type().Underlying().(*types.Slice)
+		if !ok || !isNamed(sl.Elem(), rel("filter"), "Filter") {
+			continue
+		}
+		found = true
+		key := fname(fn) + "|loop over leaf filters"
+		bad := ""
+		for _, b := range fn.Blocks {
+			if !inLoop(li, b) || b == li.header {
+				continue
+			}
+			// inner loops (the negation loop over the boolean index) have their own exits back into this loop
+			for _, s := range b.Succs {
+				if inLoop(li, s) {
+					continue
+				}
+				if guardedByErrField(s) || guardedByErrField(b) || exitReportsError(p, s) {
+					continue
+				}
+				bad = p.pos(b.Instrs[len(b.Instrs)-1].Pos())
+				if bad == "-" && len(s.Instrs) > 0 {
+					bad = p.pos(s.Instrs[0].Pos())
+				}
+			}
+			if ret, ok := b.Instrs[len(b.Instrs)-1].(*ssa.Return); ok && !guardedByErrField(b) && !exitReportsError(p, b) {
+				bad = p.instrPos(ret)
+			}
+		}
+		if bad != "" {
+			c.bad(key, p.pos(fn.Pos()), fmt.Sprintf("the loop over the filters of an OR group is left early at %s on a condition other than a failure: the remaining filters are never evaluated, so their errors (unknown column, undeclared enum constant, bad comparator) are lost", bad))
+		} else {
+			c.ok(key, p.pos(fn.Pos()), "every leaf filter is evaluated (only exits: range exhausted / error return)")
+		}
+	}
+	if !found {
+		c.undecided(fname(fn)+"|loop over leaf filters", p.pos(fn.Pos()), "no range over the []filter.Filter parameter found")
 	}
 }
 
@@ -1829,6 +2042,27 @@ func runR73(c *Ctx) {
 		fnm := fname(fn)
 		eachInstr(fn, func(in ssa.Instruction) {
 			call, ok := in.(*ssa.Call)
+			if ok && isFuncNamed(calleeObj(call), rel("internal/ecolumn"), "Factory", "AppendNil") {
+				// the enum counterpart: a null code is appended only for a nil source pointer, or in the CSV
+				// reader for an empty field when EmptyNull is set (otherwise the empty string is a value that
+				// the factory accepts or, with declared values, rejects)
+				key := fnm + "|enum null"
+				underNil, underEmptyNull := false, false
+				for _, g := range dominatingGuards(call.Block()) {
+					if b, ok := nilTestOfStrPtr(g.Cond); ok && (b.Op == token.EQL) == g.Val {
+						underNil = true
+					}
+					if fieldNameOfLoad(g.Cond) == "EmptyNull" && g.Val {
+						underEmptyNull = true
+					}
+				}
+				if underNil || underEmptyNull {
+					c.ok(key, p.instrPos(call), "null code under a guard that the source pointer is nil / the field is empty with EmptyNull")
+				} else {
+					c.bad(key, p.instrPos(call), "a null enum cell is appended without a dominating test that the source *string is nil or (CSV) that EmptyNull is set: the empty string becomes null, and an empty cell in a column with declared values is accepted instead of rejected")
+				}
+				return
+			}
 			if !ok || !isFuncNamed(calleeObj(call), rel("internal/strings"), "", "NewPointer") || len(call.Call.Args) != 3 {
 				return
 			}
